@@ -23,7 +23,7 @@ ASSUMPTIONS = [
     "known finding priority-pool-single-op is recognised by its exact signature only",
 ]
 FLOORS = {"sched_naive": 0.05, "sched_priority": 0.05, "sched_priority-pool": 0.04, "sched_overbook": 0.05,
-          "sched_starter": 0.05, "had_retry": 0.03, "had_suspension": 0.001, "zero_tick_operator": 0.1}
+          "sched_starter": 0.05, "had_retry": 0.03, "had_suspension": 0.005, "zero_tick_operator": 0.1}
 SCHEDS = ["naive", "priority", "priority", "priority-pool", "overbook", "starter"]
 
 
